@@ -14,6 +14,7 @@ ops (TAB separated, strings hex):
   invoke <prefix> <channel|~> <plugin> <command list> <spec: kind:hexarg,...|-> <allowExtra 0|1> <args list>
          (unmodelled converters behave as the identity)
   ignored <prefix>
+  flood <prefix> <flood.command 0|1> <queued> <maximum> <banmask> <punishment>
   site <owner|nested|aka|alias|apply|cif|let|netcommand|acmd|scheduled|trigger> <cur prefix> <cur args[0]> <stored prefix> <stored args[0]> <statusmsg chars> <strictRfc 0|1>
   received <prefix> <channel|~> <lobotomized 0|1> <bans: exp:hexpattern,...|-> <ignores: same>   (the record of that channel)
   cfg <prefix> <channel|~> <allowShell 0|1> <parts list> <partsLower list> <non-op-settable prefixes: hex.hex.hex,...|->
@@ -156,6 +157,18 @@ def step (s : DState) : List String → DState × String
         (s, match siteMsg site { pfx := cp, target := ct } { pfx := sp, target := st } with
             | none => "none"
             | some r => let m := r.toMsg sm strict; enc m.pfx ++ "\t" ++ encOpt m.channel)
+    | _, _, _, _, _, _ => (s, "bad-op")
+  | ["flood", p, on, queued, maxi, bm, pun] =>
+    match dec p, decBool on, queued.toNat?, maxi.toNat?, dec bm, decInt pun with
+    | some p, some on, some queued, some maxi, some bm, some pun =>
+      (s, match ownerDoPrivmsgFlood s.db s.ig s.defaultIgnore s.now p on queued maxi bm pun with
+          | (.dispatch, _) => "dispatch"
+          | (.crashed e, _) => "crash\t" ++ encErr e
+          | (.silent, ig') => if ig'.entries.length > s.ig.entries.length then
+                                match ig'.entries.getLast? with
+                                | some (b, t) => "punished\t" ++ enc b ++ "\t" ++ toString (t - s.now)
+                                | none => "silent"
+                              else "silent")
     | _, _, _, _, _, _ => (s, "bad-op")
   | ["cfg", p, ch, sh, parts, partsLower, nons] =>
     match dec p, decOpt ch, decBool sh, decList parts, decList partsLower, decPaths nons with
